@@ -454,6 +454,67 @@ pub fn script_scenario(prop: &str, shape: Shape, scripts: Vec<Vec<Op>>, oracle: 
           }
         }
       }
+      // ---- final state of two-input combinators once every thread has returned:
+      // what their definition prescribes whatever the interleaving was
+      {
+        let ops: Vec<Op> = calls.iter().map(|c| c.op).collect();
+        let undisturbed = !ops.iter().any(|o| matches!(o, Op::Unsubscribe | Op::UnsubSubject | Op::ErrorA | Op::Subscribe));
+        let a_done = ops.contains(&Op::CompleteA);
+        let b_done = ops.contains(&Op::CompleteB);
+        // scripts end with their completion, so every item preceded it
+        let a_items: Vec<Item> = ops.iter().filter_map(|o| if let Op::NextA(v) = o { Some(*v) } else { None }).collect();
+        let b_items: Vec<Item> = ops.iter().filter_map(|o| if let Op::NextB(v) = o { Some(*v) } else { None }).collect();
+        let scripts_end_with_completion = scripts.iter().all(|s| {
+          s.iter().position(|o| matches!(o, Op::CompleteA | Op::CompleteB)).map_or(true, |i| i + 1 == s.len())
+        });
+        if undisturbed && scripts_end_with_completion {
+          let notes = p0.notes();
+          let completed = notes.last() == Some(&Note::C);
+          let want_complete = match shape {
+            Shape::Merge | Shape::Zip | Shape::CombineLatest => Some(a_done && b_done),
+            Shape::WithLatestFrom | Shape::Sample | Shape::SkipUntil => Some(a_done),
+            // buffer whose notifier completes first: unspecified (see DESIGN §3)
+            Shape::Buffer => {
+              if a_done {
+                Some(true)
+              } else {
+                None
+              }
+            }
+            _ => None,
+          };
+          if let Some(w) = want_complete {
+            // zip / combine_latest may legitimately complete early only when one
+            // input completed; never without any completion
+            let ok = match shape {
+              Shape::Zip | Shape::CombineLatest => !(w && !completed) && !(completed && !a_done && !b_done),
+              _ => completed == w,
+            };
+            if !ok {
+              ctx.fail(
+                format!("{prop}:completion:{}", shape.name()),
+                format!(
+                  "inputs completed: a={a_done} b={b_done}; output [{}] is {}completed",
+                  fmt_notes(&notes),
+                  if completed { "" } else { "not " }
+                ),
+              );
+            }
+          }
+          if shape == Shape::Merge {
+            let mut got: Vec<Item> = notes.iter().filter_map(|n| if let Note::N(v) = n { Some(*v) } else { None }).collect();
+            let mut want: Vec<Item> = a_items.iter().chain(b_items.iter()).cloned().collect();
+            got.sort();
+            want.sort();
+            if got != want {
+              ctx.fail(
+                format!("{prop}:merge-items:{}", shape.name()),
+                format!("merged inputs emitted {want:?}, the output delivered {got:?}"),
+              );
+            }
+          }
+        }
+      }
       let _ = end_stamp;
       let mut d = 0;
       for p in &probes {
@@ -1040,6 +1101,34 @@ pub fn plan(prop: &str, tier: Tier) -> Option<Plan> {
       Some(Plan {
         scenarios: sc,
         rule: "a one-shot task (plain / producing a subscription; with and without a delay) scheduled through the crate's scheduler machinery (Remote, TaskHandle) on a controlled pool task, against a thread that cancels the handle; the body contains two controlled steps so that another thread can run in the middle of it; every schedule within the preemption bound; oracle: the body runs at most once, neither starts nor is still running once unsubscribe() has returned, and a subscription it produced is unsubscribed by the handle teardown".into(),
+        bounds: json!({"preemptions": c}),
+        assumptions: vec!["sequentially consistent memory".into()],
+      })
+    }
+    "C04" => {
+      let c = if q { 2 } else { 3 };
+      for shape in [
+        Shape::Merge,
+        Shape::Zip,
+        Shape::CombineLatest,
+        Shape::WithLatestFrom,
+        Shape::TakeUntil,
+        Shape::SkipUntil,
+        Shape::Sample,
+        Shape::Buffer,
+      ] {
+        for s in [
+          vec![vec![Op::NextA(1), Op::CompleteA], vec![Op::NextB(3), Op::CompleteB]],
+          vec![vec![Op::CompleteA], vec![Op::CompleteB]],
+          vec![vec![Op::NextA(1), Op::NextA(2), Op::CompleteA], vec![Op::NextB(3), Op::NextB(4), Op::CompleteB]],
+          vec![vec![Op::NextA(1), Op::NextA(2)], vec![Op::NextB(3), Op::CompleteB]],
+        ] {
+          sc.push(script_scenario("C04", shape, s, Oracle::Serialise, c, CAP));
+        }
+      }
+      Some(Plan {
+        scenarios: sc,
+        rule: "the two inputs of merge/zip/combine_latest/with_latest_from/take_until/skip_until/sample/buffer (_threads forms) driven by one thread each (items then completion); every schedule within the preemption bound; oracle on the final state, which the definitions fix whatever the interleaving: the output has completed exactly when the definition says so (merge/zip/combine_latest: both inputs; the others: the main input), merge delivered every item of both inputs exactly once, notification grammar, no overlapping callbacks, every call returns".into(),
         bounds: json!({"preemptions": c}),
         assumptions: vec!["sequentially consistent memory".into()],
       })
